@@ -65,6 +65,8 @@ T = [
  ("a hex escape followed by a line break could be matched in two ways", "C01", "'url(' + many '\\a<newline>' without an end: exponential backtracking"),
  ("a comment between the declarations of a margin box was swallowed", "C03", "'@page { @top-left { /*c*/ x: y } }': comment given through the DOM or the source lost on reparse; a comment-only box dropped the box (C09 I5)"),
  ("a variables block whose last declaration ends with ';' followed by a comment", "C10", "variables 'x: 1; /*c*/ y: 2' after removeVariable('y') serialised 'x: 1;\\n/*c*/', which did not reparse (raise mode) or listed no variables (log mode)"),
+ ("a rejected MediaList.mediaText (e.g. a comment only) no longer flags", "C11", "media.mediaText = '/*x*/' raised SyntaxErr but set wellformed False on the unchanged list: the @media rule vanished from the sheet's serialisation"),
+ ("a rejected CSSStyleSheet.cssText no longer leaves the variables", "C11", "rejected sheet text starting with @variables left its variables in sheet.variables"),
 ]
 log = subprocess.run(["git", "-C", "/repo", "log", "--format=%h\t%s", "36c1f69..HEAD"], capture_output=True, text=True).stdout.splitlines()
 subj = {l.split("\t")[1][5:]: l.split("\t")[0] for l in log if l.split("\t")[1].startswith("fix: ")}
